@@ -64,9 +64,9 @@ manifest = {
     "notes": "Technique family: static analysis only; nothing under /repo is imported or executed by a "
              "check. Exit codes: 0 held, 1 violation (VIOLATION line), 2 analysis error (ANALYSIS-ERROR "
              "line). thorough = quick + self-test on in-memory mutants (afqmc_lint/mutants/*.json). "
-             "known_findings.json lists one recorded, unrepaired defect of the repository (D8: C09 / GUARD-3, six "
-             "Green's-function updates of the fast CPMC step functions; DESIGN.md 6 and 9.3): the C09 check prints one "
-             "KNOWN-FINDING line per listed construct and exits 0; the same rule at any other construct is a VIOLATION.",
+             "known_findings.json lists one recorded, unrepaired defect of the repository (D8: C09 / GUARD-3, the six "
+             "Green's-function updates of the two fast CPMC step functions; DESIGN.md 6 and 9.3): the C09 check prints one "
+             "KNOWN-FINDING line per listed step function and exits 0; the same rule at any other construct is a VIOLATION.",
 }
 json.dump(manifest, open(os.path.join(here, "MANIFEST.json"), "w"), indent=1)
 print("claimed:", served, "| not_applicable:", [x["property_id"] for x in na])
